@@ -41,7 +41,7 @@ var allKinds = []kind{kLR, kLD, kEV, kRM, kMT, kUN, kRC, kRA}
 
 func configs() []config {
 	// two CIDs, the whole alphabet
-	two := []pass{{3, unbounded}, {4, 1}}
+	two := []pass{{3, unbounded}, {4, 2}}
 	// queue pressure: three CIDs, small alphabet, smallest queue
 	three := []pass{{4, unbounded}}
 	if ev.Thorough() {
